@@ -62,7 +62,7 @@ except Exception as e: m={"meta_unreadable":str(e)}
 m["breaks_property"]=sys.argv[3]
 m["confirmed_by_lead"]={"patch_applies_and_builds":True,"repository_tests_pass_with_patch":True,"demo_passes_without_patch":True,"demo_fails_with_patch":True,
   "ran":"tools/seedcheck.sh: fresh worktree of /repo HEAD; go build ./...; go test (all non-SEED packages); demo with/without; VERIF_REPO=<worktree> ./vcheck %s %s"%(sys.argv[3],sys.argv[5])}
-m["check_verdict"]={"tier":sys.argv[5],"verdict":sys.argv[4],"first_violating_obligation":sys.argv[6]}
+m["check_verdict"]={"tier":sys.argv[5],"verdict":sys.argv[4],"first_violating_obligation":sys.argv[6].encode("utf-8","replace").decode("utf-8")}
 json.dump(m,open(sys.argv[2],'w'),indent=1,ensure_ascii=False)
 PY
 else
